@@ -4,7 +4,8 @@
    [option]: "never a panic" is the type of the model; that the implementation behaves like the
    model on malformed bytes is what the correspondence run checks. *)
 From Coq Require Import ZArith List Bool.
-From DosVerif Require Import Base.Val Base.Field Models.Bn Proofs.BnCodecProofs Proofs.BnCodecG2.
+From DosVerif Require Import Base.Val Base.Field Models.Bn Models.BnPairing Models.GtCodec
+     Proofs.BnCodecProofs Proofs.BnCodecG2 Proofs.GtCodecProofs.
 Import ListNotations.
 Local Open Scope Z_scope.
 
@@ -88,6 +89,33 @@ Print Assumptions C11_scalar_in_range.
 Theorem C11_scalar_length : forall k, length (scalar_marshal k) = 32%nat.
 Proof. exact scalar_length. Qed.
 Print Assumptions C11_scalar_length.
+
+(* ---- GT (Models/GtCodec.v): 384 bytes, the twelve coordinates as 32-byte words *)
+
+(* every element of F_p^12 - so every GT element - survives encode-then-decode unchanged, whatever
+   follows the encoding in the buffer *)
+Theorem C11_roundtrip_gt : forall (e : fp12) (rest : list N), fp12_unmarshal (fp12_marshal e ++ rest) = Some e.
+Proof. exact gt_roundtrip. Qed.
+Print Assumptions C11_roundtrip_gt.
+
+Theorem C11_length_gt : forall e : fp12, length (fp12_marshal e) = 384%nat.
+Proof. exact gt_length. Qed.
+Print Assumptions C11_length_gt.
+
+(* distinct elements have distinct encodings *)
+Theorem C11_injective_gt : forall a b : fp12, fp12_marshal a = fp12_marshal b -> a = b.
+Proof. exact gt_injective. Qed.
+Print Assumptions C11_injective_gt.
+
+Theorem C11_short_gt : forall buf, (length buf < 384)%nat -> fp12_unmarshal buf = None.
+Proof. exact gt_short. Qed.
+Print Assumptions C11_short_gt.
+
+(* what the decoder delivers decodes again to itself from its own encoding (canonical words) *)
+Theorem C11_decoded_canonical_gt :
+  forall buf e, fp12_unmarshal buf = Some e -> fp12_unmarshal (fp12_marshal e) = Some e.
+Proof. exact gt_decoded_canonical. Qed.
+Print Assumptions C11_decoded_canonical_gt.
 
 (* non-vacuity: the G1 generator and a multiple of it are on the curve and round-trip; the G2
    generator satisfies the twist equation (the G2 subgroup test is a 254-bit scalar multiplication
